@@ -220,8 +220,9 @@ def rule_sides(ck, repo, R):
     # dynamic flags
     de = repo.cls('chython.periodictable.base.dynamic:DynamicElement').method('is_dynamic')
     b = strip_doc(de.node.body)
-    ok = len(b) == 1 and isinstance(b[0], ast.Return) and isinstance(b[0].value, ast.BoolOp) and isinstance(b[0].value.op, ast.Or) and \
-        {src(v) for v in b[0].value.values} == {'self.charge != self.p_charge', 'self.is_radical != self.p_is_radical'}
+    from .r_query import dnf as _dnf2, simplify as _simp2
+    ok = len(b) == 1 and isinstance(b[0], ast.Return) and b[0].value is not None and \
+        _simp2(_dnf2(b[0].value)) == _simp2(_dnf2(ast.parse('self.charge != self.p_charge or self.is_radical != self.p_is_radical', mode='eval').body))
     ck.decide(ok, R, 'atom:is_dynamic', src(b[0].value) if b else None, 'DynamicElement.is_dynamic is no longer (charge differs) or (radical state differs)', file=de.file, line=de.lineno)
     dbd = repo.cls('chython.containers.bonds:DynamicBond').method('is_dynamic')
     b = strip_doc(dbd.node.body)
